@@ -9,7 +9,18 @@ table = {
   'progs':  [ [actions] ... ]
 }
 action = ['post', dt, prog] | ['postrep', dt0, ddt, prog] | ['unpost', k, fatal] | ['query', k]
-       | ['postpast'] | ['ladd', li, x] | ['ldiscard', li, x] | ['laddself', li] | ['ldiscardself', li]
+       | ['postpast'] | ['ladd', li, x] | ['ldiscard', li, x] | ['laddself', li] | ['ldiscardself', li] | ['peek']
+
+['unpost', k, fatal]: fatal is True, False or None (also: left out).  None is the PLAIN call unpostEvent(id), which
+exercises the default of the parameter (through Process.unpostEvent for even k, Dynamics.unpostEvent for odd k); the kernel
+model knows it as `AUnpost k true`.
+['peek'] records Dynamics.nextPendingEventTime().  It has no counterpart in the kernel model: action and observation are
+left out of the Coq rendering (the call changes nothing observable: it only drops un-posted heads from the heap).
+
+Observations (rec.obs), the ones with more fields than the Coq rendering uses:
+  ['valueerror', t_requested, clock]      a postEvent that raised ValueError
+  ['unpost', id, result|'KeyError', fatal]
+  ['peek', clock, time|None]
 """
 import math
 
@@ -80,31 +91,38 @@ class ScriptProcess(Process):
         for a in acts:
             k = a[0]
             if k == 'post':
+                clk = self.currentSimulationTime()
                 try:
                     i = self.postEvent(t + a[1], e, self.posted_handler(a[2]), name='p%d' % a[2])
                     rec.ids.append(i)
                     rec.obs.append(['posted', i, t + a[1], a[2], e])
                 except ValueError:
-                    rec.obs.append(['valueerror'])
+                    rec.obs.append(['valueerror', t + a[1], clk])
             elif k == 'postrep':
                 n0 = self.dynamics()._eventId
                 self.postRepeatingEvent(t + a[1], a[2], e, self.posted_handler(a[3]), name='p%d' % a[3])
                 rec.obs.append(['postedrep', t + a[1], a[2], a[3], e])
             elif k == 'postpast':
+                clk = self.currentSimulationTime()
                 try:
-                    self.postEvent(self.currentSimulationTime() - 1.0, e, self.posted_handler(0), name='p0')
-                    rec.obs.append(['posted-into-past-accepted'])
+                    self.postEvent(clk - 1.0, e, self.posted_handler(0), name='p0')
+                    rec.obs.append(['posted-into-past-accepted', clk - 1.0, e])
                 except ValueError:
-                    rec.obs.append(['valueerror'])
+                    rec.obs.append(['valueerror', clk - 1.0, clk])
             elif k == 'unpost':
                 if not rec.ids:
                     continue
                 i = rec.ids[a[1] % len(rec.ids)]
+                fatal = a[2] if len(a) > 2 else None
                 try:
-                    r = self.unpostEvent(i, fatal=a[2])
-                    rec.obs.append(['unpost', i, r, a[2]])
+                    if fatal is None:
+                        # the plain call: the default of `fatal` decides
+                        r = self.unpostEvent(i) if a[1] % 2 == 0 else self.dynamics().unpostEvent(i)
+                    else:
+                        r = self.unpostEvent(i, fatal=fatal)
+                    rec.obs.append(['unpost', i, r, fatal])
                 except KeyError:
-                    rec.obs.append(['unpost', i, 'KeyError', a[2]])
+                    rec.obs.append(['unpost', i, 'KeyError', fatal])
             elif k == 'query':
                 if not rec.ids:
                     continue
@@ -114,6 +132,8 @@ class ScriptProcess(Process):
                     rec.obs.append(['query', i, r])
                 except KeyError:
                     rec.obs.append(['query', i, 'KeyError'])
+            elif k == 'peek':
+                rec.obs.append(['peek', self.currentSimulationTime(), self.dynamics().nextPendingEventTime()])
             elif k == 'observe':
                 rec.obs.append(['observe', t, [len(l) for l in self.dynamics().loci().values()]])
             elif k == 'ladd':
